@@ -100,6 +100,9 @@ func GenGenesis(t *rapid.T, prof *Profile) GenesisSpec {
 			return map[string]interface{}{"fee": coinJSON{DenomStake, "1"}}
 		case 3:
 			return map[string]interface{}{"fee": coinJSON{DenomRegen, "5000000"}}
+		case 5:
+			g.Notes = append(g.Notes, label+"=1e19ibc")
+			return map[string]interface{}{"fee": coinJSON{DenomIBC, "10000000000000000000"}}
 		case 4:
 			if uniform(t, label+".hostile", 100) < prof.HostilePct {
 				g.Notes = append(g.Notes, label+">funds")
@@ -132,6 +135,8 @@ func GenGenesis(t *rapid.T, prof *Profile) GenesisSpec {
 	case 1:
 		ads = append(ads, map[string]interface{}{"bank_denom": DenomRegen, "display_denom": "regen", "exponent": 6},
 			map[string]interface{}{"bank_denom": DenomIBC, "display_denom": "usdc", "exponent": 6})
+	case 3:
+		ads = append(ads, map[string]interface{}{"bank_denom": DenomIBC, "display_denom": "weth", "exponent": 18})
 	case 2:
 		if prof.AllowEmptyDenoms {
 			ads = nil
